@@ -67,3 +67,43 @@ VARIANTS = [
       "        yield repr(data.bin_height)\n",
       "        bh = data.bin_height\n        yield repr(bh)\n", "silent"),
 ]
+
+_SEL_NEW = (
+    "                columns, None,\n"
+    "                skip_orig_key=lambda s: not str.startswith(\n"
+    "                    s, LOWER_BOUNDS_BIN_COUNT))\n")
+_SEL_OLD = "                columns, LOWER_BOUNDS_BIN_COUNT)\n"
+VARIANTS += [
+    V("result-bin-bound-keys-stripped", R, _SEL_NEW, _SEL_OLD, "fire",
+      "D19.4", "the defect repaired by 3dc14eb, re-introduced"),
+    V("stats-bin-bound-keys-stripped", S, _SEL_NEW, _SEL_OLD, "fire",
+      "D19.4", "the defect repaired by 3dc14eb, re-introduced"),
+    V("result-bin-bound-filter-inverted", R,
+      "skip_orig_key=lambda s: not str.startswith(\n"
+      "                    s, LOWER_BOUNDS_BIN_COUNT))",
+      "skip_orig_key=lambda s: str.startswith(\n"
+      "                    s, LOWER_BOUNDS_BIN_COUNT))", "fire", "D19.4"),
+    V("silent-bin-bound-filter-method-form", R,
+      "skip_orig_key=lambda s: not str.startswith(\n"
+      "                    s, LOWER_BOUNDS_BIN_COUNT))",
+      "skip_orig_key=lambda s: not s.startswith(\n"
+      "                    LOWER_BOUNDS_BIN_COUNT))", "silent", ""),
+    V("compact-times-limit-max-dim", I,
+      "                check_to_int_range(\n"
+      "                    s[IDX_REPETITION], \"times\", 1, 100_000_000)]",
+      "                check_to_int_range(s[IDX_REPETITION], \"times\", 1, "
+      "max_dim)]", "fire", "D19.4", "seed C19-repetition-limit-max-dim"),
+    V("compact-bin-width-limit-lower", I,
+      "            text[2], \"bin_width\", 1, 1_000_000_000_000)",
+      "            text[2], \"bin_width\", 1, 1_000_000_000)", "fire",
+      "D19.4"),
+    V("compact-width-from-2", I,
+      "                check_to_int_range(s[IDX_WIDTH], \"width\", 1, "
+      "max_dim),",
+      "                check_to_int_range(s[IDX_WIDTH], \"width\", 2, "
+      "max_dim),", "fire", "D19.4"),
+    V("silent-compact-times-wider", I,
+      "                    s[IDX_REPETITION], \"times\", 1, 100_000_000)]",
+      "                    s[IDX_REPETITION], \"times\", 1, 200_000_000)]",
+      "silent", "", "a wider reader range still covers the constructor"),
+]
